@@ -828,7 +828,7 @@ fn max_nesting(b: &[u8]) -> usize {
 fn main() {
     let args: Vec<String> = std::env::args().collect();
     if args.iter().any(|a| a == "--worker") {
-        let _ = rayon::ThreadPoolBuilder::new().num_threads(2).stack_size(8 << 20).build_global();
+        let _ = rayon::ThreadPoolBuilder::new().num_threads(2).build_global(); // default worker stack (2 MiB), what a user of the library gets
         let th = args.iter().any(|a| a == "--thorough-families");
         worker::serve_with_init(
             move || {
